@@ -201,13 +201,32 @@ pub fn split_record(seed: u64, i: usize, closed: bool, verbose: bool, run_order:
            "single": single, "runs": runs})
 }
 
+/// Names of structures / words that both modules of history i declare (with layouts of their own).
+pub fn hist_shared_structs(seed: u64, i: usize) -> Vec<String> {
+    if i % 2 == 1 {
+        return Vec::new();
+    }
+    let a = Program::generate(seed ^ 0x4157, 2 * i).without_main();
+    let b = Program::generate(seed ^ 0x4157, 2 * i + 1);
+    let names_a: Vec<String> = (1..=a.len()).filter(|x| a.kind(*x) == "struct").map(|x| a.name(x)).collect();
+    (1..=b.len()).filter(|x| b.kind(*x) == "struct").map(|x| b.name(x)).filter(|n| names_a.contains(n)).collect()
+}
+
 /// One history record: module B alone, B after an unrelated module A (same Compiler), A and B linked.
 pub fn hist_record(seed: u64, i: usize, verbose: bool) -> Value {
     let a = Program::generate(seed ^ 0x4157, 2 * i).without_main();
     let b = Program::generate(seed ^ 0x4157, 2 * i + 1);
     let ida: Vec<usize> = (1..=a.len()).collect();
     let idb: Vec<usize> = (1..=b.len()).collect();
-    let fa = ("a.pn".to_string(), a.render(&ida));
+    // Structures of the same name and different layout in two modules of one Compiler are a known finding of its own
+    // (LLVM aborts); in every second history the structures and words of A get names of their own, so that the other
+    // private names the two modules share (functions, constants) are observed as well.
+    let own_names: Vec<(String, String)> = if i % 2 == 1 {
+        ida.iter().filter(|x| a.kind(**x) == "struct").map(|x| (a.name(*x), format!("A{}", a.name(*x)))).collect()
+    } else {
+        Vec::new()
+    };
+    let fa = ("a.pn".to_string(), a.render_shared(&ida, &own_names));
     let fb = ("b.pn".to_string(), b.render(&idb));
     if verbose {
         println!("---- a.pn\n{}\n---- b.pn\n{}", fa.1, fb.1);
@@ -227,5 +246,6 @@ pub fn hist_record(seed: u64, i: usize, verbose: bool) -> Value {
         println!("alone: {alone}\nafter: {after}\nlinked: {linked}");
     }
     let same_ir = o1.modules[0].ir == o2.modules.iter().find(|m| m.path == "b.pn").and_then(|m| m.ir.clone());
-    json!({"ev": "hist", "prog": i, "seed": seed, "alone": alone, "after": after, "linked": linked, "same_ir_text": same_ir})
+    json!({"ev": "hist", "prog": i, "seed": seed, "alone": alone, "after": after, "linked": linked, "same_ir_text": same_ir,
+           "shared_structs": hist_shared_structs(seed, i)})
 }
